@@ -79,7 +79,7 @@ for (corpus, name), out in sorted(results.items()):
         small[name] = {k: v["reports"][:4] for k, v in out.items() if not k.startswith("_")}
 if small and PREFIX and os.path.exists("/verif/benign_small/RESULTS.json"):
     old = json.load(open("/verif/benign_small/RESULTS.json"))
-    alarms = {k: v for k, v in old.get("alarms", {}).items() if not k.startswith(PREFIX)}
+    alarms = {k: v for k, v in old.get("alarms", {}).items() if not re.match(PREFIX, k)}
     alarms.update({k: v for k, v in small.items() if v})
     n_all = len(glob.glob("/verif/benign_small/*/patch.diff"))
     json.dump({"edits": n_all, "raising_an_alarm": len(alarms), "alarms": alarms}, open("/verif/benign_small/RESULTS.json", "w"), indent=1)
